@@ -14,13 +14,15 @@ from happysimulator.components.datastore.kv_store import KVStore
 from happysimulator.components.datastore.soft_ttl_cache import SoftTTLCache
 
 HALF = NS // 2
-CACHE_LAT = 0.5
+CACHE_LAT = 0.25
+TICK_OFF = NS // 4  # the backing store is rewritten at t = 0.25, 1.25, 2.25 ... (never on an access instant)
 MAX_EVENTS = 3000
 
 
 class Ticker(Entity):
-    """The world behind the cache: rewrites every key at t = 0.5, 1.5, 2.5 ... with a value that
-    names the instant it was written; optionally deletes key 'a' at ``del_half`` and stops writing it."""
+    """The world behind the cache: rewrites every key at t = 0.25, 1.25, 2.25 ... with a value that
+    names the instant it was written; optionally deletes key 'a' at the first such instant >= del_half / 2
+    and stops writing it."""
 
     def __init__(self, backing, keys, steps, del_half, sample):
         super().__init__("ticker")
@@ -130,7 +132,7 @@ def execute(cfg, accesses):
         cls.append(c)
         sim_entities.append(c)
     sim = Simulation(entities=sim_entities)
-    sim.schedule(start_event(ticker, HALF, [("tick",)]))
+    sim.schedule(start_event(ticker, TICK_OFF, [("tick",)]))
     for i, (t, kind, key) in enumerate(accesses):
         op = (kind, key, ("p", key, i)) if kind == "put" else (kind, key)
         sim.schedule(start_event(cls[i], t * NS, [op]))
@@ -177,7 +179,11 @@ def judge(ex):
             res = r["res"]
             # soft-TTL cache never serves an entry older than its hard TTL: whatever it serves was the
             # backing store's content at some instant no further back than hard_ttl before the read
-            if res is not None and not ttl_done and not current_in_window(hist, res, r["inv"] - hard, r["resp"]):
+            # The age is judged when the cache read that produced the response starts: at issue for a hit
+            # (which takes cache_read_latency), and no earlier than cache_read_latency before completion for
+            # the longer paths (a read that waited for a fetch / an in-flight refresh decides after the wait).
+            judged = max(r["inv"], r["resp"] - int(CACHE_LAT * NS))
+            if res is not None and not ttl_done and not current_in_window(hist, res, judged - hard, r["resp"]):
                 ttl_done = True
                 when = [t for t, v in hist if v == res]
                 shape = r["path"] + ("/backing-key-deleted" if deleted else "")
@@ -185,7 +191,8 @@ def judge(ex):
                             f"get({key}) issued t={r['inv'] / NS:g} (path {r['path']}) completed t={r['resp'] / NS:g} "
                             f"served {res}, which the backing store last held at "
                             f"t<={(max(_end(hist, res)) / NS) if when else '?'} — more than hard_ttl={hard / NS:g} "
-                            f"before the read was issued"))
+                            f"before t={judged / NS:g}, the latest instant at which the cache read behind this "
+                            f"response can have started"))
             # read after a completed write through the cache returns that value or a later one
             done_puts = [p for p in puts if p[1] is not None and p[1] < r["inv"]]
             if done_puts and not reg_done:
@@ -264,7 +271,7 @@ def sttl_job(job):
             if fp not in stats["viol"]:
                 stats["viol"][fp] = (f"SoftTTLCache(soft={cfg['soft']},hard={cfg['hard']},read_latency={cfg['L']},"
                                      f"cap={cfg['cap']},backing delete of 'a' at t="
-                                     f"{None if cfg['del_half'] is None else cfg['del_half'] / 2}) accesses={acc}: {desc}",
+                                     f"{None if cfg['del_half'] is None else -(-cfg['del_half'] // 2) + 0.25}) accesses={acc}: {desc}",
                                      {"driver": "sttl", "cfg": cfg, "accesses": acc})
         if not stats["samples"] and stats["executions"] % 503 == 11:
             stats["samples"].append({"cfg": cfg, "accesses": acc,
